@@ -257,12 +257,10 @@ def verdict(res, out_keys=None):
     if out_keys is not None and w['state'] == 'SUCCESS':
         o = w['output'] or {}
         output = tuple(sorted((k, o.get(k)) for k in out_keys))
-    elif out_keys is not None and not out_keys:
-        output = ()
     return (w['state'], tasks, output)
 
 
-def canon_rows(res, with_info=False):
+def canon_rows(res, with_info=False, error_output=True):
     """Canonical final rows with ids/timestamps erased (C02/C06/C10)."""
     out = {'wf': [], 'task': []}
     acts_by_task = {}
@@ -277,6 +275,11 @@ def canon_rows(res, with_info=False):
         o = dict(w['output'] or {})
         if w['state'] in ('ERROR', 'CANCELLED'):
             o.pop('result', None)   # message embeds ids
+            if not error_output:
+                # a forced failure (fail command, failing expression)
+                # racing parallel branches: the error output is whatever
+                # had been published by then - inherently order-dependent
+                o = {}
         out['wf'].append((w['name'], w['state'], sim._canon(o),
                           w['task_execution_id'] is not None))
     for t in res.snap['task'].values():
